@@ -465,28 +465,36 @@ type callRes struct {
 	stack string
 }
 
-// threadCPU is the CPU time consumed by the calling OS thread (RUSAGE_THREAD).
+// threadCPU is the USER-mode CPU time consumed by the calling OS thread (RUSAGE_THREAD, ru_utime).
+// Kernel time is deliberately not counted: on an overloaded or virtualised machine the page faults of
+// one large allocation (ugorji allocates up to 64 MiB for a declared length) are charged seconds of
+// system time, which says nothing about the handler; a decoder or state machine that loops burns user
+// time, and allocation volume has its own bound.
 func threadCPU() time.Duration {
 	var ru syscall.Rusage
 	if syscall.Getrusage(1 /* RUSAGE_THREAD */, &ru) != nil {
 		return 0
 	}
-	return time.Duration(ru.Utime.Nano() + ru.Stime.Nano())
+	return time.Duration(ru.Utime.Nano())
 }
 
-// onCPU is the time the OS thread `tid` of this process has spent running (schedstat), readable from
-// another thread.
+// onCPU is the user-mode CPU time of the OS thread `tid` of this process (/proc/self/task/<tid>/stat,
+// field 14, clock ticks of 10 ms), readable from another thread.
 func onCPU(tid int) time.Duration {
-	b, err := os.ReadFile("/proc/self/task/" + strconv.Itoa(tid) + "/schedstat")
+	b, err := os.ReadFile("/proc/self/task/" + strconv.Itoa(tid) + "/stat")
 	if err != nil {
 		return 0
 	}
-	f := strings.Fields(string(b))
-	if len(f) == 0 {
+	st := string(b)
+	if i := strings.LastIndex(st, ")"); i >= 0 {
+		st = st[i+1:]
+	}
+	f := strings.Fields(st) // f[0] = state (field 3), utime = field 14 = f[11]
+	if len(f) < 12 {
 		return 0
 	}
-	ns, _ := strconv.ParseInt(f[0], 10, 64)
-	return time.Duration(ns)
+	ticks, _ := strconv.ParseInt(f[11], 10, 64)
+	return time.Duration(ticks) * 10 * time.Millisecond
 }
 
 // blockedState: the goroutine header of a stack dump says it waits for something other than the CPU
@@ -552,7 +560,7 @@ func guarded(budget time.Duration, f func() error) (callRes, int, string) {
 			used = onCPU(int(tid[0])) - time.Duration(tid[1])
 		}
 		if blockedState(now) || tid[0] == 0 || used >= budget || time.Now().After(deadline) {
-			return callRes{}, 2, fmt.Sprintf("%s (thread on CPU for %v)", now, used)
+			return callRes{}, 2, fmt.Sprintf("%s (thread user CPU %v)", now, used)
 		}
 	}
 }
